@@ -319,7 +319,9 @@ def _checkout(  # noqa: C901
 
     progress_callback.set_size(sum(diff.stats.values()))
     link = Link(links, callback=progress_callback)
-    for change in diff.deleted:
+    # NOTE: the entry of the directory itself goes last: its object being in
+    # the cache says nothing about its files, which are checked one by one
+    for change in sorted(diff.deleted, key=lambda change: change.old.key == ROOT):
         entry_path = fs.join(path, *change.old.key) if change.old.key != ROOT else path
         _remove(entry_path, fs, change.old.in_cache, force=force, prompt=prompt)
 
